@@ -9,7 +9,7 @@ PROP = "Properties/C03.v"
 KNOWN_QUIC_LOSS = "quic-loss-not-a-prefix"
 SUITE_CODES = []
 SUITE_CODES_SHA384 = []
-REMOVING = ("delete-packet", "cut-before", "cut-after", "remove-keys", "unknown-suite", "foreign-http", "foreign-udp")
+REMOVING = ("delete-packet", "cut-before", "cut-after", "remove-keys", "drop-one-line", "unknown-suite", "foreign-http", "foreign-udp")
 
 
 def by_flow(out):
@@ -49,6 +49,11 @@ def inject(rng, case, victim, fault, hist):
         if all(l in keep for l in vlines):
             keep = [l for l in keep if l not in vlines]
         keylog = "\n".join(keep) + "\n"
+    elif fault == "drop-one-line":
+        # exactly one of the victim's key-log lines is missing (e.g. a TLS 1.3 direction's application secret while its handshake secret is there)
+        gone = rng.choice(sorted(vlines))
+        hist["dropped-line=%s" % gone.split(" ")[0]] += 1
+        keylog = "\n".join(l for l in keylog.split("\n") if l and l != gone) + "\n"
     elif fault == "random-keys":
         def rnd(l):
             a, b, c = l.split(" ")
@@ -218,7 +223,8 @@ def main():
     n = 10 if ck.tier == "quick" else 150
     n_model = 16 if ck.tier == "quick" else 200
     n_crafted_model = 8 if ck.tier == "quick" else 80
-    faults = ["delete-packet", "cut-before", "cut-after", "remove-keys", "random-keys", "unknown-suite", "flip-bit", "overwrite", "shorten", "short-record", "short-record", "short-record", "foreign-http", "foreign-udp", "crafted-initial", "crafted-initial", "hello-mismatch", "hello-mismatch", "hello-mismatch", "hello-mismatch"]
+    faults = ["delete-packet", "cut-before", "cut-after", "remove-keys", "drop-one-line", "drop-one-line", "drop-one-line", "random-keys", "unknown-suite", "flip-bit", "overwrite", "shorten", "short-record", "short-record", "short-record", "foreign-http", "foreign-udp", "crafted-initial", "crafted-initial", "hello-mismatch", "hello-mismatch", "hello-mismatch", "hello-mismatch"]
+    n_drop = 0
     for i in range(n):
         conns = []
         k = rng.choice([2, 3, 4])
@@ -240,6 +246,11 @@ def main():
         from ref import iana_ref, tls_ref
         vers = [v for v in tls_ref.valid_versions(code, iana_ref.denote(table[code])) if v != "TLS13"]
         conns.append(pool.tls_conn(rng, table, hist, idx=k + 1, code=code, ver=rng.choice(vers), nrec=4, reclen=rng.choice([100, 300]), schedule="records"))
+        # always one TLS 1.3 connection (four key-log lines; target of two of the three drop-one-line faults)
+        t13 = pool.tls_conn(rng, table, hist, idx=k + 4, code=rng.choice([0x1301, 0x1302, 0x1303]), ver="TLS13", nrec=rng.choice([2, 5]), reclen=rng.choice([40, 300]),
+                            schedule=rng.choice(["records", "whole", "mss"]))
+        t13.is13 = True
+        conns.append(t13)
         case = pool.build(rng, conns, hist)
         args = [[], ["-a"], [], ["-a"]][i % 4]      # period 4 against the period 3 of the zero-length-CID connection above
         st0, out0 = impl.run(case.capture, case.keylog, args)
@@ -256,6 +267,12 @@ def main():
                 victim = tl[0]
             if fault == "short-record":
                 victim = conns[-1]
+            if fault == "drop-one-line":
+                many = [c for c in conns if len([l for l in c.s.keylog.split("\n") if l]) > 1]     # TLS 1.3 and QUIC connections have several lines
+                victim = rng.choice(many) if many else victim
+                n_drop += 1
+                if n_drop % 3:
+                    victim = next(c for c in conns if getattr(c, "is13", False))
             if fault == "crafted-initial":
                 victim = next(c for c in conns if c.kind == "quic" and getattr(c, "many_updates", False))
             pk, keylog = inject(rng, case, victim, fault, hist)
@@ -318,6 +335,41 @@ def main():
                 hist["model_runs"] += 1
                 if mt != it:
                     disagreements.append({"what": "fault %s" % fault, "model": mt[:100], "impl": it[:100], "capture": cap.hex(), "keylog": keylog, "args": args})
+    # a lost segment whose absence leaves the record framing aligned: equal-size records, segments as long as the records but out of
+    # step with them; every data segment of the server's flight is deleted in turn.  What is exported must be a prefix of the plaintext
+    # (a reassembler that forgets the hole would splice the neighbours into a well-framed record; with CBC that decrypts to garbage)
+    from ref import iana_ref as _ir, tls_ref as _tr
+    for i in range(2 if ck.tier == "quick" else 24):
+        code = rng.choice([0x002F, 0x0035, 0x003C, 0x000A])
+        ver = rng.choice([v for v in _tr.valid_versions(code, _ir.denote(table[code])) if v in ("TLS11", "TLS12")])
+        sc = tlsgen.Scenario()
+        sc.conn = tlsgen.make_conn(rng, table, code, ver, hist, nrec=0, shape="full", hs12_cuts=None, etm=False)
+        L = rng.choice([100, 200, 333])
+        for _ in range(8):
+            sc.conn.app(True, bytes(rng.randrange(256) for _ in range(L)))
+        W = len(sc.conn.wire[-1][1])
+        sc.client, sc.server = tlsgen.endpoints(rng, bool(rng.randrange(2)), server_port=443, idx=1)
+        sc.wire = [(srv, rec) for srv, rec, _, _ in sc.conn.wire]
+        sc.packets = capgen.tcp_packets(sc.wire, rng, sc.client, sc.server, schedule=("shifted", W, rng.randrange(1, W)))
+        sc.keylog = "\n".join(sc.conn.keylog_lines()) + "\n"
+        data_srv = [j for j, p_ in enumerate(sc.packets) if p_.get("len") and p_["isserver"]]
+        for j in data_srv[-8:-1]:
+            pk = [p_ for k_, p_ in enumerate(sc.packets) if k_ != j]
+            cap = capgen.to_pcapng(pk)
+            st, out = impl.run(cap, sc.keylog, [])
+            hist["fault=aligned-loss/tls"] += 1
+            ck.case(("aligned-loss", i, j))
+            why = None
+            if st != "ok":
+                why = "the run ended with %s" % st
+            else:
+                pkts, convs = readback.read_output(out)
+                cv = tlsgen.find_conv(convs, sc.client)
+                if cv is not None and not is_prefix(cv["s"], sc.conn.plaintext(True)):
+                    k0 = next((x for x in range(min(len(cv["s"]), len(sc.conn.plaintext(True)))) if cv["s"][x] != sc.conn.plaintext(True)[x]), min(len(cv["s"]), len(sc.conn.plaintext(True))))
+                    why = "the victim's server stream (%d bytes) is not a prefix of its plaintext (%d bytes): it differs from offset %d" % (len(cv["s"]), len(sc.conn.plaintext(True)), k0)
+            if why:
+                fails.append({"what": "%s 0x%04X, %d-byte records in %d-byte segments out of step, server segment %d deleted: %s" % (ver, code, L, W, j, why), "capture": cap.hex(), "keylog": sc.keylog, "args": []})
     if m:
         ck.cov["oracle_queries"] = m.queries
         ck.cov["model_runs_skipped"] = m.skipped
